@@ -512,6 +512,13 @@ def r7_sibling_resolvers(chk, cls):
         table = ei.value if isinstance(ei, ast.Subscript) else (ei.func.value if isinstance(ei, ast.Call) and isinstance(ei.func, ast.Attribute) and ei.func.attr == "get" else None)
         if isinstance(table, ast.DictComp) or (isinstance(table, ast.Call) and call_name(table) == "dict"):
             takes_first = isinstance(ea, ast.Call) and call_name(ea) == "next"
+            # filled from the atoms walked backwards, the table keeps the FIRST atom of a repeated key
+            src_it = table.generators[0].iter if isinstance(table, ast.DictComp) and len(table.generators) == 1 else None
+            backwards = src_it is not None and ((isinstance(src_it, ast.Call) and call_name(src_it) == "reversed") or
+                                                (isinstance(src_it, ast.Subscript) and norm(src_it.slice) == "::-1"))
+            if backwards and "self._atoms" in norm(src_it) and takes_first:
+                chk.ok("C05.R7", key, gi.where(ri), f"table filled from the atoms walked backwards: the first atom of a repeated key wins, as in `{short(ea, 40)}`")
+                continue
             chk.decide(not takes_first, "C05.R7", key, gi.where(ri), "",
                        f"get_atom({K}) takes the first atom that matches (`{short(ea, 40)}`), get_atom_index({K}) looks the designator up in `{short(table, 50)}`, "
                        "which keeps the last atom of a repeated key: with two atoms of one label / element del_atom removes the first atom and the coordinate / charge row of the last")
